@@ -283,6 +283,16 @@ HARNESSES += [
     ),
 ]
 
+from harness.c03 import h03_stop  # noqa: E402
+
+HARNESSES.append(
+    Harness(name="H04-stop-during-retry", scenario=h03_stop, workers=16, budget_s=900,
+            params={"quick": {"n_msgs": 1, "kinds": (1,)}, "thorough": {"n_msgs": 2, "kinds": (1,)}},
+            bounds={"as H03-stop-mem": "a failing job with a retry left: stop signal at every loop step 1..90 (also inside the requeue), any graceful period in [0, 8 ms]: "
+                                      "never two copies, a changed counter/slot only through the one requeue"},
+            functions=["_runner.py:_Runner._process_with_event", "_processor.py:_Processor.process"],
+            covers=["stopped", "requeued"],
+            stubs=["signal delivery = the captured handler is called at the start of loop iteration k"]))
 ASSUMPTIONS = [
     "step/chain harnesses use the in-memory broker; Redis and RabbitMQ back-off delivery is checked at the client boundary on fake servers",
 ]
